@@ -316,8 +316,8 @@ Proof. reflexivity. Qed.
 
 (* ------------------------------------------------------------------ what one script line can do *)
 
-Definition setup_events (l : list event) : list (env * tree) :=
-  flat_map (fun e => match e with EvSetup e t => [(e, t)] | _ => [] end) l.
+Definition setup_events (l : list event) : list (env * tree * list path) :=
+  flat_map (fun e => match e with EvSetup e t o => [(e, t, o)] | _ => [] end) l.
 Definition work_removed (l : list event) : list unit :=
   flat_map (fun e => match e with EvWorkRemoved => [tt] | _ => [] end) l.
 
@@ -462,8 +462,8 @@ Definition defers_done (ss : sstate) : Prop :=
 
 Definition setup_ok (cfg : config) (p : script) (s : nat) (ss : sstate) : Prop :=
   setup_events (obs ss) = [] \/
-  exists t, setup_tree (is_root cfg) (archive p) = Some t /\
-            setup_events (obs ss) = [(initial_env (hostenv cfg) s (setup_adds p), t)].
+  exists t, setup_tree (is_root cfg) (effective_files cfg p) = Some t /\
+            setup_events (obs ss) = [(initial_env (hostenv cfg) s (setup_adds p), t, escapes_of cfg p)].
 
 Definition sinv (cfg : config) (p : script) (s : nat) (ss : sstate) : Prop :=
   bgok ss /\ setup_ok cfg p s ss /\
@@ -525,12 +525,12 @@ Proof.
   - (* setup *)
     destruct PH as (O & D & G & W).
     destruct (defer_regs_of_setup (setup_defers p)) as (R1 & R2 & R3 & R4 & R5).
-    destruct (setup_tree (is_root cfg) (archive p)) as [t|] eqn:Et.
+    destruct (setup_tree (is_root cfg) (effective_files cfg p)) as [t|] eqn:Et.
     + assert (K : forall ph0, match ph0 with Running _ | Ending _ SDefers => True | _ => False end ->
                   sinv cfg p s {| ph := ph0; cwd := []; senv := initial_env (hostenv cfg) s (setup_adds p); tr := t;
                                   wpresent := true; dstack := rev (setup_defers p); bgl := [];
                                   obs := map (fun d => EvDeferReg (fst d)) (setup_defers p)
-                                         ++ [EvSetup (initial_env (hostenv cfg) s (setup_adds p)) t] |}).
+                                         ++ [EvSetup (initial_env (hostenv cfg) s (setup_adds p)) t (escapes_of cfg p)] |}).
       { intros ph0 Hph0. unfold sinv, bgok, setup_ok, defers_pending. cbn [obs bgl ph dstack wpresent].
         rewrite bg_started_app, setup_events_app, work_removed_app, defer_runs_app, defer_regs_app, R1, R2, R3, R4, R5.
         cbn [app bg_started setup_events work_removed defer_runs defer_regs flat_map].
@@ -986,7 +986,7 @@ Lemma sstep_sim cfg p s cb ca ss cb' ssb eb ca' ssa ea :
 Proof.
   intros Hk Hwf R G E Hb Ha. unfold sstep in Hb, Ha.
   destruct (ph ss) as [|pc|v st|v].
-  - destruct (setup_tree (is_root cfg) (archive p)) as [t|].
+  - destruct (setup_tree (is_root cfg) (effective_files cfg p)) as [t|].
     + destruct (setup_err p); injection Hb as <- <- <-; injection Ha as <- <- <-;
         (split; [reflexivity|]); (split; [exact R|]); (split; [exact G|]);
         (split; [cbn; now apply initial_env_ok | apply frame_others_refl]).
@@ -1128,15 +1128,15 @@ Qed.
 Definition b_bin : name := [x62; x69; x6e].
 Definition b_tool : name := [x6d; x79; x74; x6f; x6f; x6c].
 Definition cfg_prog_key : config :=
-  {| retain := false; key_by_path := false; has_cancel := false; is_root := true;
+  {| retain := false; key_by_path := false; names_see_env := true; has_cancel := false; is_root := true;
      hostenv := [(PATH, [x2f; x75; x73; x72; x2f; x62; x69; x6e])]; hosttab := []; helper := [x68] |}.
 (* A: chmod 755 bin/mytool; env PATH=$WORK/bin; [exec:mytool] stop; then a failing line.
    B: [exec:mytool] then a failing line (mytool is not on the host PATH). *)
 Definition script_A : script :=
-  {| archive := [([b_bin; b_tool], [])]; setup_adds := []; setup_defers := []; setup_err := false;
+  {| archive := [([b_bin; b_tool], [])]; work_named := []; setup_adds := []; setup_defers := []; setup_err := false;
      body := [AChmodX [b_bin; b_tool]; ASetPathOwn [b_bin] false; AIfExec false b_tool AStop; AFail] |}.
 Definition script_B : script :=
-  {| archive := []; setup_adds := []; setup_defers := []; setup_err := false;
+  {| archive := []; work_named := []; setup_adds := []; setup_defers := []; setup_err := false;
      body := [AIfExec false b_tool AFail] |}.
 
 Definition verdict_of (st : bstate) (s : nat) : option phase := option_map ph (nth_error (scripts st) s).
@@ -1153,7 +1153,7 @@ Proof. vm_compute. repeat split. Qed.
 
 (* the same two scripts with the key that includes PATH: both orders agree with the solitary runs *)
 Example path_key_order_independent :
-  let cfg := {| retain := false; key_by_path := true; has_cancel := false; is_root := true;
+  let cfg := {| retain := false; key_by_path := true; names_see_env := true; has_cancel := false; is_root := true;
                 hostenv := hostenv cfg_prog_key; hosttab := []; helper := [x68] |} in
   let progs := [script_A; script_B] in
   let a_first := repeat 0 12 ++ repeat 1 12 in
@@ -1238,38 +1238,60 @@ Proof.
   intros Hp Hs. destruct (run_all_sinv cfg progs sched _ (init_all_sinv cfg progs)) as [_ H]. eauto.
 Qed.
 
-Lemma in_setup_events e t l : In (EvSetup e t) l -> In (e, t) (setup_events l).
-Proof. intro H. unfold setup_events. apply in_flat_map. exists (EvSetup e t). split; [exact H | now left]. Qed.
+Lemma in_setup_events e t o l : In (EvSetup e t o) l -> In (e, t, o) (setup_events l).
+Proof. intro H. unfold setup_events. apply in_flat_map. exists (EvSetup e t o). split; [exact H | now left]. Qed.
 
-Lemma setup_event_is_initial cfg progs sched s p ss e t :
+Lemma setup_event_is_initial cfg progs sched s p ss e t o :
   nth_error progs s = Some p -> nth_error (scripts (run cfg progs (init progs) sched)) s = Some ss ->
-  In (EvSetup e t) (obs ss) ->
-  e = initial_env (hostenv cfg) s (setup_adds p) /\ setup_tree (is_root cfg) (archive p) = Some t.
+  In (EvSetup e t o) (obs ss) ->
+  e = initial_env (hostenv cfg) s (setup_adds p) /\ setup_tree (is_root cfg) (effective_files cfg p) = Some t
+  /\ o = escapes_of cfg p.
 Proof.
   intros Hp Hs Hin. destruct (reachable_sinv _ _ _ _ _ _ Hp Hs) as (_ & SU & _).
   apply in_setup_events in Hin. destruct SU as [SU|(t0 & Et & SU)]; rewrite SU in Hin; [destruct Hin|].
-  destruct Hin as [Hin|[]]. injection Hin as <- <-. now split.
+  destruct Hin as [Hin|[]]. injection Hin as <- <- <-. repeat split; assumption.
 Qed.
 
-Lemma env_from_scratch cfg progs sched s p ss e t :
+Lemma env_from_scratch cfg progs sched s p ss e t o :
   nth_error progs s = Some p -> nth_error (scripts (run cfg progs (init progs) sched)) s = Some ss ->
-  In (EvSetup e t) (obs ss) ->
+  In (EvSetup e t o) (obs ss) ->
   e = initial_env (hostenv cfg) s (setup_adds p)
   /\ map fst e = map fst setup_env_head ++ passthrough_present (hostenv cfg) ++ map fst setup_env_tail ++ map fst (setup_adds p)
   /\ (forall h', (forall n, In n host_reads -> host_get h' n = host_get (hostenv cfg) n) ->
                  initial_env h' s (setup_adds p) = e).
 Proof.
-  intros Hp Hs Hin. destruct (setup_event_is_initial _ _ _ _ _ _ _ _ Hp Hs Hin) as [-> _].
+  intros Hp Hs Hin. destruct (setup_event_is_initial _ _ _ _ _ _ _ _ _ Hp Hs Hin) as (-> & _ & _).
   split; [reflexivity|]. split; [apply initial_env_names|]. intros h' H. now apply initial_env_indep.
 Qed.
 
-Lemma workdir_exact cfg progs sched s p ss e t :
+(* the statement tied to the generated constant: it goes through only if setup() makes the
+   initial variables visible before it expands the entry names *)
+Lemma workdir_exact cfg progs sched s p ss e t o :
+  names_see_env cfg = entry_names_see_env ->
   nth_error progs s = Some p -> nth_error (scripts (run cfg progs (init progs) sched)) s = Some ss ->
-  In (EvSetup e t) (obs ss) ->
-  forall q, tree_get t q = expected_node (archive p) q.
+  In (EvSetup e t o) (obs ss) ->
+  o = [] /\ forall q, tree_get t q = expected_node (archive p) q.
 Proof.
-  intros Hp Hs Hin. destruct (setup_event_is_initial _ _ _ _ _ _ _ _ Hp Hs Hin) as [_ Ht].
+  intros Hn Hp Hs Hin. destruct (setup_event_is_initial _ _ _ _ _ _ _ _ _ Hp Hs Hin) as (_ & Ht & ->).
+  assert (Hn' : names_see_env cfg = true) by (rewrite Hn; reflexivity).
+  unfold escapes_of, effective_files in *. rewrite Hn' in *. split; [reflexivity|].
   eapply setup_tree_exact; eauto.
+Qed.
+
+(* with the entry names expanded before the environment exists (the code before the repair) a
+   file named $WORK/f is not in the work directory: it is unpacked outside *)
+Lemma unexpanded_names_refuted :
+  exists cfg p ss e t o,
+    names_see_env cfg = false /\
+    snd (fst (sstep cfg p 0 [] sstate0)) = ss /\ In (EvSetup e t o) (obs ss) /\
+    o <> [] /\ exists q, tree_get t q <> expected_node (archive p) q.
+Proof.
+  exists {| retain := false; key_by_path := true; names_see_env := false; has_cancel := false; is_root := true;
+            hostenv := []; hosttab := []; helper := [] |},
+         {| archive := [([[x66]], [x31])]; work_named := [[[x66]]]; setup_adds := []; setup_defers := [];
+            setup_err := false; body := [] |}.
+  do 4 eexists. split; [reflexivity|]. split; [reflexivity|]. split; [cbn; left; reflexivity|].
+  split; [discriminate|]. exists [[x66]]. vm_compute. discriminate.
 Qed.
 
 Lemma defers_lifo_all_paths cfg progs sched s p ss v :
@@ -1357,17 +1379,17 @@ Qed.
 (* ------------------------------------------------------------------ examples: every exit path occurs *)
 
 Definition ex_cfg : config :=
-  {| retain := false; key_by_path := true; has_cancel := true; is_root := false;
+  {| retain := false; key_by_path := true; names_see_env := true; has_cancel := true; is_root := false;
      hostenv := [(PATH, [x2f; x62]); ([x47; x4f; x52; x41; x43; x45], [x78]); ([x43; x41; x4e; x41; x52; x59], [x31])];
      hosttab := [(([x2f; x62], [x68]), true)]; helper := [x68] |}.
 Definition ex_script (b : list action) : script :=
-  {| archive := [([[x61]], [x31])]; setup_adds := [([x58], VWork 0 [[x67]])]; setup_defers := [(7, false)]; setup_err := false; body := b |}.
+  {| archive := [([[x61]], [x31]); ([[x77]], [x32])]; work_named := [[[x77]]]; setup_adds := [([x58], VWork 0 [[x67]])]; setup_defers := [(7, false)]; setup_err := false; body := b |}.
 Definition ex_progs : list script :=
   [ ex_script [ADefer 1 false; ABg 1 false; ADefer 2 false; AProbe];
     ex_script [ADefer 1 false; ABg 1 false; AFail; ADefer 2 false];
     ex_script [ADefer 1 false; ABg 1 true; ASkip];
     ex_script [ABg 1 false; ADefer 1 false; AStop; AFail];
-    {| archive := [([[x61]], [x31]); ([[x61]; [x62]], [x32])]; setup_adds := []; setup_defers := []; setup_err := false; body := [] |};
+    {| archive := [([[x61]], [x31]); ([[x61]; [x62]], [x32])]; work_named := []; setup_adds := []; setup_defers := []; setup_err := false; body := [] |};
     ex_script [ADefer 1 true; ADefer 2 false; ABg 3 false];
     ex_script [AMkdir [[x64]] true; AWrite [[x64]; [x66]] [x31]] ].
 
